@@ -1,0 +1,42 @@
+//go:build verif
+
+package v1
+
+import (
+	"sort"
+	"time"
+
+	"github.com/tendermint/tendermint/types"
+)
+
+// VerifPeers returns the peer ids recorded for tx (sorted) and whether tx is in the pool.
+func (txmp *TxMempool) VerifPeers(tx types.Tx) ([]uint16, bool) {
+	txmp.mtx.RLock()
+	defer txmp.mtx.RUnlock()
+	elt, ok := txmp.txByKey[tx.Key()]
+	if !ok {
+		return nil, false
+	}
+	w := elt.Value.(*WrappedTx)
+	w.mtx.Lock()
+	defer w.mtx.Unlock()
+	var out []uint16
+	for id := range w.peers {
+		out = append(out, id)
+	}
+	sort.Slice(out, func(i, j int) bool { return out[i] < out[j] })
+	return out, true
+}
+
+// VerifSetTimestamp overwrites the arrival timestamp of a pooled tx (the clock of the code under
+// test is the wall clock; the harness maps logical time onto it).
+func (txmp *TxMempool) VerifSetTimestamp(tx types.Tx, t time.Time) bool {
+	txmp.mtx.Lock()
+	defer txmp.mtx.Unlock()
+	elt, ok := txmp.txByKey[tx.Key()]
+	if !ok {
+		return false
+	}
+	elt.Value.(*WrappedTx).timestamp = t
+	return true
+}
